@@ -865,6 +865,8 @@ def run(report, p):
     include_rules(report, p, 'c18', ['R18.6'], 'verify of an unchanged tree must not count its own folders as new files (exit 21)')
     include_rules(report, p, 'c10', ['R10.3'], 'the recorded path must be the name on disk, or an unchanged tree is reported as missing + new')
     include_rules(report, p, 'c08', ['R8.7'], 'a removed nested history folder is only noticed if the parent recorded its directory entry (with or without directory hashes)')
+    include_rules(report, p, 'c12', ['R12.3'], 'an ignored path that is no longer on disk is not reported as missing only if the filter matches the path itself (not a quoted, sorted or otherwise rewritten form of it)')
+    include_rules(report, p, 'c17', ['R17.13'], 'an unchanged tree verifies against a packing list only if the recorded paths are looked for below the root that was given')
     report.not_decided += ["verdicts for concrete trees and mutations", "that the digest comparison detects every alteration (collision resistance)", "the wording of the output lines"]
 
 
